@@ -464,7 +464,7 @@ def translate_method(cls: ast.ClassDef, name: str) -> Tuple[str, List[str], str]
         params = params[1:]
     sc = _Scope(["self"] + params)
     body = _block(fn.body, sc)
-    return kind, [p + ("?" if i >= len(params) - n_def else "") for i, p in enumerate(params)], body
+    return kind, list(params), body
 
 
 def table(symbolic_src: str) -> Dict[str, object]:
